@@ -6621,7 +6621,26 @@ tsk_tree_clear(tsk_tree_t *self)
     const bool sample_counts = !(self->options & TSK_NO_SAMPLE_COUNTS);
     const bool sample_lists = !!(self->options & TSK_SAMPLE_LISTS);
     const tsk_flags_t *flags = self->tree_sequence->tables->nodes.flags;
+    tsk_id_t v;
 
+    if (sample_counts && self->num_edges > 0) {
+        /* Sample nodes keep their own tracked status across a clear, but the
+         * count of an internal sample also includes the tracked samples below
+         * it in the current tree, which must be taken off again. num_samples is
+         * reset below, so use it as scratch space in order that every
+         * subtraction sees the full counts of the children. */
+        for (j = 0; j < num_samples; j++) {
+            u = self->samples[j];
+            self->num_samples[u] = 0;
+            for (v = self->left_child[u]; v != TSK_NULL; v = self->right_sib[v]) {
+                self->num_samples[u] += self->num_tracked_samples[v];
+            }
+        }
+        for (j = 0; j < num_samples; j++) {
+            u = self->samples[j];
+            self->num_tracked_samples[u] -= self->num_samples[u];
+        }
+    }
     self->interval.left = 0;
     self->interval.right = 0;
     self->num_edges = 0;
